@@ -6,6 +6,7 @@ open Journal Drv
   `new`                                   → `ok`            (empty table, no process)
   `boot|run`                              → `ok`            (new process: fresh TaskJournal for `run`; the table survives)
   `load` `next` `replaying` `has` `advance` `record|key` `purge|fid`      (TaskJournal methods)
+  `areplaying`                            → `InternalDBOSAdapter.is_replaying()` of the current process
   `insert|run|seq|key` `rawload|run` `delete|run` `truncate|run|seq` `purgeops|run|fid` `addop|run|fid|name`  (crud)
   `dump`                                  → every row and op
   `wait|fid|inflight|done|timedOut|choice` → one `wait_for_next_task` call
@@ -55,6 +56,7 @@ def step (s : St) (line : String) : St × String :=
   | ["next"] => (s, match s.a.tj.nextExpected with | none => "none" | some k => s!"some {k}")
   | ["replaying"] => (s, b s.a.tj.isReplaying)
   | ["has"] => (s, b s.a.tj.hasEntries)
+  | ["areplaying"] => (s, b s.a.isReplaying)
   | ["advance"] =>
     let tj := s.a.tj.advance
     ({ s with a := { s.a with tj := tj } }, showTJ tj)
